@@ -22,6 +22,7 @@ def gen_history(rng, strings, idx):
     out = []
     lines = []
     in_func = rng.random() < 0.4
+    need_mk = False
     runtime_path = rng.random() < 0.3
     body = []
     paths = rng.sample(PATHS, 3)
@@ -33,7 +34,23 @@ def gen_history(rng, strings, idx):
         if runtime_path:
             body.append("p%d := %s" % (k, P))
             P = "p%d" % k
-        op = rng.choice(["write", "write", "append", "read", "exists", "exists-special", "exists-pair"])
+        op = rng.choice(["write", "write", "append", "read", "exists", "exists-special", "exists-pair", "exists-then-create"])
+        if op == "exists-then-create":
+            # the answer of exists() is the state at the point of its evaluation: a later operand of the same statement creates the file
+            need_mk = True
+            e0 = 1 if canon in store else 0
+            form = rng.random()
+            if form < 0.4:
+                body.append('print("c", exists(%s), mk(%s), exists(%s))' % (P, P, P))
+                out.append("c %d 1 1" % e0)
+            elif form < 0.7:
+                body.append('print("c", exists(%s) == mk(%s))' % (P, P))
+                out.append("c %d" % (1 if e0 == 1 else 0))
+            else:
+                body.append('print("c", two(exists(%s), mk(%s)))' % (P, P))
+                out.append("c %d" % (e0 * 10 + 1))
+            store[canon] = b"made\n"
+            continue
         if op == "exists-pair":
             # two (or three) queries inside one expression: every one answers for its own path
             qs = [rng.choice(paths) for _ in range(rng.choice([2, 2, 3]))]
@@ -102,6 +119,9 @@ def gen_history(rng, strings, idx):
             body.append('print("e", exists(%s))' % P)
             out.append("e %d" % (1 if canon in store else 0))
     # final state is observed through the directory tree; also read every file back
+    if need_mk:
+        lines += ["func mk(p string) bool {", "\twrite(p, \"made\")", "\treturn true", "}", "func two(a bool, b bool) int {", "\tx := 0", "\tif a {", "\t\tx = 10",
+                  "\t}", "\tif b {", "\t\tx = x + 1", "\t}", "\treturn x", "}"]
     if in_func:
         lines.append("func ops() {")
         lines += ["\t" + l for l in body]
